@@ -66,7 +66,7 @@ def run(ctx, spec):
             continue
         nconcat += 1
         src = (defs + "\n" + "\n".join(cmds)).encode("latin1")
-        for label in ("AGAIN", "RECOMPILED", "AFTER"):
+        for label in ("AGAIN", "RECOMPILED", "AFTER", "AFTERFAIL"):
             if f.get(label) != full:
                 ctx.violation("failing-input", f"running again / recompiling gives a different result ({label})",
                               dict(case_id=cid, source=src.decode("latin1"), text=text.decode("latin1"), first=full[:300],
